@@ -1,4 +1,5 @@
 import PysphVerif.Lemmas.Needs
+import PysphVerif.Lemmas.NeedsCodegen
 /-!
 # C20 — incomplete problems are rejected at set-up, never compiled and run
 
@@ -479,6 +480,111 @@ theorem stepper_error_names (arrs : List PArr) (sts : List Stepper) (v : SVerdic
       obtain ⟨st, _, h1, _⟩ := checkStepperNames_err arrs sts _ hn (by simp)
       cases h1
 
+/-! ## the three sites of the integrator code generator: check, declaration, binding
+
+`get_array_declarations` checks `s | d`, declares `s | d`; `get_array_setup`
+binds `s | d` — three separate statements (`Model/NeedsCodegen.lean`).  A
+source-style argument `s_p` of a stepper method is bound to the array being
+stepped (`s_p = dst.p.data`), so it is a need on that array exactly like `d_p`. -/
+
+/-- **stepper_source_style_args_checked.**  If the integrator code is generated
+without an error, then for every stepper and every wrapped method, every
+*source-style* argument `s_p` names a property or constant `p` of the array the
+stepper is applied to (it is not enough that some other array has `p`). -/
+theorem stepper_source_style_args_checked (arrs : List PArr) (sts : List Stepper)
+    (h : checkSteppers arrs sts = SVerdict.ok) :
+    ∀ st ∈ sts, ∃ pa, findArr arrs st.dest = some pa ∧
+      ∀ m ∈ wrapperNames sts, ∀ x ∈ st.args m, isSrcArr x = true → strip x ∈ pa.props := by
+  intro st hst
+  obtain ⟨pa, hpa, hall⟩ := stepper_check_complete arrs sts h st hst
+  exact ⟨pa, hpa, fun m hm x hx hs => hall m (Or.inr hm) x hx (by simp [hs])⟩
+
+/-- **stepper_bound_names_are_checked.**  Every pointer variable the generated
+integrator binds (`n = dst.<n[2:]>.data`, the lines of `get_array_setup`) is a
+`s_*`/`d_*` argument whose property exists in the array `dst` stands for: the
+binding site binds nothing the check site has not checked. -/
+theorem stepper_bound_names_are_checked (arrs : List PArr) (sts : List Stepper)
+    (h : checkSteppers arrs sts = SVerdict.ok) :
+    ∀ b ∈ stepperBindings sts, ∃ pa, findArr arrs b.1 = some pa ∧ b.2.2 ∈ pa.props ∧
+      (b.2.1 = "s_" ++ b.2.2 ∨ b.2.1 = "d_" ++ b.2.2) := by
+  rintro ⟨a, n, p⟩ hb
+  simp only [stepperBindings, List.mem_flatMap, List.mem_map, Prod.mk.injEq] at hb
+  obtain ⟨st, hst, m, hm, n', hn', rfl, rfl, rfl⟩ := hb
+  obtain ⟨hargs, hsd⟩ := (mem_stepperSetupNames st m n').mp hn'
+  obtain ⟨pa, hpa, hall⟩ := stepper_check_complete arrs sts h st hst
+  refine ⟨pa, hpa, hall m (Or.inr hm) n' hargs hsd, ?_⟩
+  rcases Bool.or_eq_true_iff.mp hsd with hs | hd
+  · exact Or.inl (src_strip n' hs).symm
+  · exact Or.inr (dst_strip n' hd).symm
+
+/-- **stepper_decl_types_known.**  When the check of a method passes for every
+stepper, every name `get_array_declarations(method)` declares is a key of
+`known_types`: the declaration site cannot raise the bare `KeyError`. -/
+theorem stepper_decl_types_known (arrs : List PArr) (sts : List Stepper) (m : Name)
+    (h : checkStepperDecl arrs sts m = SVerdict.ok) :
+    ∀ n ∈ stepperDeclNames sts m, n ∈ knownTypes arrs := by
+  intro n hn
+  obtain ⟨st, hst, hn⟩ := (mem_stepperDeclNames sts m n).mp hn
+  obtain ⟨hargs, hsd⟩ := (mem_stepperArrNames _ n).mp hn
+  have h2 := (firstSError_ok _ _).mp h st hst
+  simp only [checkStepperMethod] at h2
+  split at h2
+  · cases h2
+  · rename_i pa hpa
+    split at h2
+    · rename_i hsub
+      refine mem_knownTypes (findArr_mem hpa) hsd ?_
+      apply (subset_iff _ _).mp hsub
+      simp only [stepperProps, List.mem_map, List.mem_filter]
+      exact ⟨n, ⟨hargs, hsd⟩, rfl⟩
+    · cases h2
+
+/-- **stepper_decl_total.**  `get_array_declarations(method)` either raises the
+RuntimeError of the check or returns declarations; it never fails with a
+`KeyError` (an error that names neither stepper nor array). -/
+theorem stepper_decl_total (arrs : List PArr) (sts : List Stepper) (m n : Name) :
+    stepperDecl arrs sts m ≠ DeclOutcome.keyError n := by
+  unfold stepperDecl
+  cases hc : checkStepperDecl arrs sts m with
+  | ok =>
+    simp only
+    split
+    · rename_i k hk
+      have hmem := List.mem_of_find?_eq_some hk
+      have hnot := List.find?_some hk
+      have := stepper_decl_types_known arrs sts m hc k hmem
+      simp [this] at hnot
+    · simp
+  | invalidStepper a => simp
+  | missing a b c => simp
+
+/-- **stepper_missing_arg_is_rejected.**  The converse direction, stated for a
+single argument: if all stepper keywords are particle arrays and some method of
+some stepper has a `s_*` or `d_*` argument whose property the stepped array
+lacks — whatever the other arrays hold — then code generation raises the
+"requires the following properties" error (whose content is described by
+`stepper_error_names`). -/
+theorem stepper_missing_arg_is_rejected (arrs : List PArr) (sts : List Stepper)
+    (hnames : checkStepperNames arrs sts = SVerdict.ok)
+    (st : Stepper) (hst : st ∈ sts) (m : Name) (hm : m ∈ st.methods.map (·.1))
+    (x : Name) (hx : x ∈ st.args m) (hsd : (isSrcArr x || isDstArr x) = true)
+    (pa : PArr) (hpa : findArr arrs st.dest = some pa) (hmiss : strip x ∉ pa.props) :
+    ∃ c d ns, checkSteppers arrs sts = SVerdict.missing c d ns := by
+  cases hv : checkSteppers arrs sts with
+  | ok =>
+    obtain ⟨pa', hpa', hall⟩ := stepper_check_complete arrs sts hv st hst
+    rw [hpa] at hpa'
+    cases hpa'
+    exact absurd (hall m (Or.inl hm) x hx hsd) hmiss
+  | invalidStepper n =>
+    have := stepper_error_names arrs sts _ hv
+    simp only at this
+    obtain ⟨st', hst', hd, hnone⟩ := this
+    obtain ⟨pa', hpa'⟩ := checkStepperNames_ok arrs sts hnames st' hst'
+    rw [hd, hnone] at hpa'
+    cases hpa'
+  | missing c d ns => exact ⟨c, d, ns, rfl⟩
+
 /-! ## the whole build -/
 
 /-- **no_incomplete_problem_reaches_execution.**  If `AccelerationEval(...)`
@@ -676,5 +782,24 @@ example :
          pyStages := [] }] =
     SVerdict.missing "RK2Step" "fluid" ["x0"] := by
   decide +kernel
+
+/-- a damped stepper that names the damping coefficient through a source-style
+argument: complete on `fluid`, incomplete on `solid` although `fluid` has it -/
+def dampStepper (dest : Name) : Stepper :=
+  { dest := dest, cls := "DampedEulerStep",
+    methods := [("stage1", ["self", "d_idx", "d_x", "d_rho", "s_damp", "dt"])], pyStages := [] }
+def dampArrs : List PArr :=
+  [{ name := "fluid", props := ["tag", "pid", "gid", "x", "rho", "damp"] },
+   { name := "solid", props := ["tag", "pid", "gid", "x", "rho"] }]
+
+example :
+    checkSteppers dampArrs [dampStepper "fluid"] = SVerdict.ok ∧
+    checkSteppers dampArrs [dampStepper "fluid", dampStepper "solid"] =
+      SVerdict.missing "DampedEulerStep" "solid" ["damp"] ∧
+    "s_damp" ∈ knownTypes dampArrs ∧
+    ("fluid", "s_damp", "damp") ∈ stepperBindings [dampStepper "fluid"] ∧
+    stepperDeclNames [dampStepper "fluid"] "stage1" = ["d_rho", "d_x", "s_damp"] := by
+  refine ⟨by decide +kernel, by decide +kernel, by decide +kernel, by decide +kernel,
+    by decide +kernel⟩
 
 end PysphVerif.C20
